@@ -162,3 +162,14 @@ pub fn vx_extend_opt<T>(v: &mut Vec<T>, o: Option<T>)
 
 /// R43 target for `drop(x)`: takes its argument by value and lets it go
 pub fn vx_drop<T>(t: T) { }
+
+// ---- R6 targets for `str::contains` on a ByteString with printable-ASCII patterns (assumed: the std documentation of str::contains) ----
+pub open spec fn has_any2(s: Seq<u8>, a: u8, b: u8) -> bool { exists|i: int| 0 <= i < s.len() && (s[i] == a || s[i] == b) }
+pub open spec fn has_sub(s: Seq<u8>, p: Seq<u8>) -> bool { exists|i: int| 0 <= i && i + p.len() <= s.len() && #[trigger] s.subrange(i, i + p.len()) == p }
+/// `s.contains(['a', 'b'])`, `s.contains('a')` for ASCII characters: some byte of the string is one of them (std: `str::contains` with a char / char-array pattern)
+#[verifier::external_body] pub fn vx_bstr_has_any2(s: &ByteString, a: u8, b: u8) -> (r: bool) ensures r == has_any2(s@, a, b) { unimplemented!() }
+/// `s.contains("lit")` for an ASCII literal: the literal's bytes occur as a contiguous run (std: `str::contains` with a `&str` pattern)
+#[verifier::external_body] pub fn vx_bstr_has_sub1(s: &ByteString, a: u8) -> (r: bool) ensures r == has_sub(s@, seq![a]) { unimplemented!() }
+#[verifier::external_body] pub fn vx_bstr_has_sub2(s: &ByteString, a: u8, b: u8) -> (r: bool) ensures r == has_sub(s@, seq![a, b]) { unimplemented!() }
+#[verifier::external_body] pub fn vx_bstr_has_sub3(s: &ByteString, a: u8, b: u8, c: u8) -> (r: bool) ensures r == has_sub(s@, seq![a, b, c]) { unimplemented!() }
+#[verifier::external_body] pub fn vx_bstr_has_sub4(s: &ByteString, a: u8, b: u8, c: u8, d: u8) -> (r: bool) ensures r == has_sub(s@, seq![a, b, c, d]) { unimplemented!() }
